@@ -3,8 +3,8 @@
 i=0
 for grp in "$@"; do
   i=$((i+1))
-  ( W=/var/tmp/vthor_$i; rm -rf $W; rsync -a --exclude .git --exclude replays --exclude seeded /verif/ $W/; cd $W
-    for p in $grp; do python3 tools/run.py $p --tier thorough > /dev/shm/thor_$p.out 2>&1; echo "$p rc=$? $(tail -n 1 /dev/shm/thor_$p.out | cut -c1-150)" >> /dev/shm/thor_summary.log; cp $W/evidence/$p.json /dev/shm/thor_evidence_$p.json 2>/dev/null; done
+  ( W=/var/tmp/vthor_${TAG:-t}_$i; rm -rf $W; rsync -a --exclude .git --exclude replays --exclude seeded /verif/ $W/; cd $W
+    for p in $grp; do python3 tools/run.py $p --tier ${TIER:-thorough} > /dev/shm/thor_$p.out 2>&1; echo "$p rc=$? $(tail -n 1 /dev/shm/thor_$p.out | cut -c1-150)" >> /dev/shm/thor_summary.log; cp $W/evidence/$p.json /dev/shm/thor_evidence_$p.json 2>/dev/null; done
     rm -rf $W ) &
 done
 wait
